@@ -361,6 +361,39 @@ def run(facts, res):
     res.instance("D3", "%d state-changing / storing call sites inspected: none is guarded by a query of an LRU cache" % n3b, None)
     res.floor("D3", "state-changing call sites inspected for cache guards", n3b, 10)
 
+    # D3c: the cache holds nothing the replica does not hold: cache entries are written for objects as they are staged (D3), so an
+    # object leaves "staged or committed" only when the stage is emptied without being packed - every function that removes
+    # entries from DataStorage.stage either moves them into the object index (the pack writer) or empties the cache as well.
+    # Otherwise a discarded object stays readable from the cache: the availability test of the block checker succeeds for a block
+    # whose object is in no pack, an incremental refresh applies what a reload holds back, and the value is lost on eviction.
+    from ..common import field_path as _fp, arg_term as _at
+    DEL = {"clear", "remove", "retain", "drain", "take", "pop", "remove_entry", "split_off", "truncate"}
+    n3c = 0
+    for b in facts.repo_bodies():
+        if b.impl_adt != "datastorage::DataStorage" and not (b.kind == "closure" and (b.parent or "").startswith("datastorage::DataStorage")):
+            continue
+        bcfg = cfg_of(b)
+        drops = [(bi, t) for bi, t in b.calls() if t.callee is not None and t.callee.name in DEL and t.args and
+                 _fp(_at(b, t, 0, 12))[0][:1] == ["stage"]]
+        if not drops:
+            continue
+        moves = any(t.callee is not None and t.callee.name in ("insert", "extend") and t.args and
+                    ("committed_objects" in _fp(_at(mb_, t, 0, 12))[0] or
+                     any(x[0] == "upvar" and "committed_objects" in str(x[2]) for x in walk(_at(mb_, t, 0, 12))))
+                    for mb_ in [b] + facts.closures_of(b.path) for _, t in mb_.calls())
+        evicts = [bi for bi, t in b.calls() if t.callee is not None and "lru::LruCache" in (t.callee.path or "") and t.callee.name in ("clear", "pop", "pop_lru", "resize")]
+        for bi, t in drops:
+            n3c += 1
+            ok = moves or any(bcfg.dominates(e_, bi) or bcfg.postdominates(e_, bi) for e_ in evicts)
+            res.instance("D3", "%s empties the object stage: entries move to the object index (%s) or the object cache is emptied with it (%s)" % (
+                b.path, moves, bool(evicts)), b.loc(t.line))
+            if not ok:
+                res.violation("D3", "%s|stage-dropped-cache-kept" % b.path,
+                              "%s removes staged objects without emptying the object cache: a discarded object stays readable from the cache, so the "
+                              "block checker accepts a block whose object is in no pack (incremental refresh applies it, a reload of the same storage holds "
+                              "it back) and the value disappears when the entry is evicted" % b.path, b.loc(t.line))
+    res.floor("D3", "functions that empty the object stage", n3c, 2)
+
 
 _RAW = {}
 
